@@ -510,4 +510,72 @@ theorem run_set {st : Store} (hfree : AllFree st.scopes) (s : Nat) (k : Key) (v 
   have hheld := hfree s sc hsc
   simp [run, fuelFor, runTask, stepTask, hsc, hheld]
 
+/-! ### a locked section, read sequentially -/
+
+theorem runTask_walk_below {st : Store} (hwf : WF st.scopes) (k : Key) :
+    ∀ (f s : Nat), s < f → s < st.scopes.length →
+      (∀ (i : Nat) (sc : Scope), i ≤ s → st.scopes[i]? = some sc → sc.held = false) →
+      runTask f st (.walk s k) = (st, .inl (.val (valueF st.scopes f s k))) := by
+  intro f
+  induction f with
+  | zero => intro s hs; omega
+  | succ f ih =>
+    intro s hs hlen hfree
+    have : ∃ sc, st.scopes[s]? = some sc := ⟨st.scopes[s], by simp [hlen]⟩
+    rcases this with ⟨sc, hsc⟩
+    have hheld := hfree s sc (Nat.le_refl s) hsc
+    simp only [runTask, stepTask, walkTask, hsc, hheld, valueF]
+    cases hr : readLevel st.scopes s k with
+    | hit v => simp
+    | bottom => simp
+    | up p =>
+      have hlt := readLevel_up_lt hwf hr
+      simp
+      exact ih p (by omega) (by omega) (fun i sc hi => hfree i sc (by omega))
+
+/-- `LockData` on a free scope of an unlocked heap: the scope's mutex is taken, a fresh locker
+sharing the scope's map (and remembering its parent) is returned -/
+theorem run_lock {st : Store} (hfree : AllFree st.scopes) (s : Nat) (sc : Scope) (hsc : st.scopes[s]? = some sc) :
+    run st (.req (.lock s)) =
+      ({ scopes := setHeld st.scopes s true,
+         lockers := st.lockers ++ [{ target := some s, parent := sc.parent, unlock := .scope s, held := false }] },
+       .inl (.locker st.lockers.length)) := by
+  have hheld := hfree s sc hsc
+  simp [run, fuelFor, runTask, stepTask, hsc, hheld]
+
+/-- inside the section (scope `s` locked by locker `l`, nothing else locked) the locker's `Value` is
+the overlay of the chain, `SetValue` writes scope `s`, and `Commit` releases the mutex -/
+theorem run_locker {st : Store} (hwf : WF st.scopes) (s l : Nat) (sc : Scope) (lk : Locker)
+    (hsc : st.scopes[s]? = some sc) (hlk : st.lockers[l]? = some lk)
+    (hl : lk = { target := some s, parent := sc.parent, unlock := .scope s, held := false })
+    (hheld : sc.held = true)
+    (hothers : ∀ (i : Nat) (x : Scope), i ≠ s → st.scopes[i]? = some x → x.held = false) (k : Key) (v : Val) :
+    run st (.req (.lget l k)) = (st, .inl (.val (value st.scopes s k))) ∧
+    run st (.req (.lset l k v)) = ({ st with scopes := dataSet st.scopes s k v }, .inl .ok) ∧
+    (run st (.req (.commit l))).2 = .inl .ok ∧
+    (run st (.req (.commit l))).1.scopes = setHeld st.scopes s false := by
+  subst hl
+  have hslt : s < st.scopes.length := by
+    rcases List.getElem?_eq_some_iff.mp hsc with ⟨h, _⟩; exact h
+  refine ⟨?_, ?_, ?_, ?_⟩
+  · have hun := value_unfold hwf s k
+    rw [readLevel_of_scope hsc] at hun
+    unfold run fuelFor
+    rw [runTask]
+    simp only [stepTask, hlk, dataGet, hsc]
+    cases hm : mget sc.data k with
+    | some x => simp [hm] at hun ⊢; exact hun.symm
+    | none =>
+      cases hp : sc.parent with
+      | none => simp [hm, hp] at hun ⊢; exact hun.symm
+      | some p =>
+        simp [hm, hp] at hun ⊢
+        have hps : p < s := hwf s sc hsc p hp
+        rw [runTask_walk_below hwf k (st.scopes.length + 1) p (by omega) (by omega)
+          (fun i x hi hx => hothers i x (by omega) hx)]
+        rw [valueF_eq_value hwf k _ _ (by omega), hun]
+  · simp [run, fuelFor, runTask, stepTask, hlk]
+  · simp [run, fuelFor, runTask, stepTask, hlk, isHeld, hsc, hheld]
+  · simp [run, fuelFor, runTask, stepTask, hlk, isHeld, hsc, hheld, setLocker]
+
 end Goat.DataScope
